@@ -8,7 +8,11 @@ import collections, os, re, subprocess
 from concurrent.futures import ThreadPoolExecutor
 from engine.core import log, VERIF
 
-GUARD_RULE = ("guard domain, independent requests, every bits image in an exactly-sized buffer flush against a PROT_NONE page (after the end / "
+GUARD_RULE = ("guard domain, independent requests; 14% EXACT-HIT composites (64..300 px wide sources, 20% narrower; bilinear 85% / nearest; every repeat mode; "
+              "scale-only transform whose translation is solved so that the sample of the first / an interior / the last destination pixel lands exactly "
+              "(fraction 0, or +-1..3 units, or +-1/2) on column 0, -1, width-1 or width (any period for NORMAL) and rows likewise; minimal stride, rows first/last in "
+              "memory, SRC/OVER/ADD, mask none / solid / a8; 15% rewritten with another homogeneous scale (bottom row 0 0 w, w in {2,3,-1,1/2,-2,5,1/4,3/2})); 12% of all "
+              "other constructed/translation/affine transforms homogeneously rescaled as well; otherwise:  every bits image in an exactly-sized buffer flush against a PROT_NONE page (after the end / "
               "before the start, 50% each; 25% moved 4..12 bytes away for the other alignments; canary on the open side), 25% negative stride, 30% padded "
               "stride, 12% checking accessors: composite32 70% {14 operators; dest 15 formats 1..128 bpp, size 0..130; source bits (16 formats incl. yuy2, "
               "size 0..2000 and 8000..32766 x 1..2) / solid / linear gradient; mask none 60% / solid / bits (+component alpha 20%); repeat NONE/NORMAL/PAD/REFLECT; "
